@@ -43,7 +43,7 @@ struct LifetimeVisitor<'a> {
 
 impl<'ast> Visit<'ast> for LifetimeVisitor<'_> {
     fn visit_lifetime(&mut self, node: &'ast syn::Lifetime) {
-        if node.ident != "static" && node.ident != "input" {
+        if node.ident != "static" && node.ident != "input" && !self.lifetimes.contains(node) {
             self.lifetimes.push(node.clone())
         }
     }
